@@ -111,7 +111,7 @@ def run(ctx, eng):
     for p in cm.normal_paths(paths):
         conds = [e.cond for e in p.events if e.kind == 'assume']
         shows = [cm.show0(c) for c in conds]
-        has_open = any(s.endswith('.open') and 'loopvar' in s
+        has_open = any(s.endswith('.open') and 'each(' in s
                        for s in shows)
         has_par = any('% 2) == remainder)' in s for s in shows)
         if has_open and has_par and p.value is not None and \
